@@ -48,6 +48,23 @@ func init() {
 	c("repr-add", "C16.repr.build", "format/bson/bson.jq", "      | map({key: .name, value: _f})\n      | from_entries", "      | map({(.name): _f})\n      | add", "bson:map")
 	c("repr-kv-swap", "C16.repr.build", "format/msgpack/msgpack.jq", `{key: (.key | _msgpack_torepr), value: (.value | _msgpack_torepr)}`, `{key: (.value | _msgpack_torepr), value: (.key | _msgpack_torepr)}`, "msgpack:map")
 
+	// clauses added by the self-review
+	c("cbor-form-select", "C16.cbor.indef", cb, "if shortCount == shortCountIndefinite {\n\t\t\t\tsb := &strings.Builder{}", "if count == shortCountIndefinite {\n\t\t\t\tsb := &strings.Builder{}", "major:3:form-select")
+	c("cbor-form-select-bytes", "C16.cbor.indef", cb, "if shortCount == shortCountIndefinite {\n\t\t\t\tbb := &bytes.Buffer{}", "if count == shortCountIndefinite {\n\t\t\t\tbb := &bytes.Buffer{}", "major:2:form-select")
+	c("cbor-chunk-return", "C16.cbor.chunks", cb, "\t\t\treturn d.FieldUTF8(\"value\", int(count))", "\t\t\td.FieldUTF8(\"value\", int(count))\n\t\t\treturn nil", "major:3:return")
+	c("cbor-dispatch-return", "C16.cbor.chunks", cb, "\t\t\treturn mt.d(d, shortCount, count)\n\t\t}\n\t\treturn nil", "\t\t\tmt.d(d, shortCount, count)\n\t\t}\n\t\treturn nil", "dispatch:return")
+	c("cbor-chunk-accumulate", "C16.cbor.chunks", cb, `d.FieldValueStr("value", sb.String())`, `d.FieldValueStr("value", "")`, "major:3:accumulate")
+	c("cbor-chunk-bits", "C16.cbor.chunks", cb, `bitio.NewBitReader(bb.Bytes(), -1)`, `bitio.NewBitReader(bb.Bytes(), int64(bb.Len()))`, "major:2:accumulate")
+	c("asn1-end-marker", "C16.asn1.length", as, `d.FieldU16("end_marker")`, `d.FieldU8("end_marker")`, "indefinite:end-marker")
+	c("asn1-int-width", "C16.asn1.row", as, `if length > 8 {`, `if length > 16 {`, "tag:integer:width")
+	c("asn1-bool-sym", "C16.asn1.row", as, `{Range: [2]uint64{0, 0}, S: scalar.Uint{Sym: false}}`, `{Range: [2]uint64{0, 0}, S: scalar.Uint{Sym: true}}`, "tag:boolean:sym")
+	c("asn1-bitstring", "C16.asn1.row", as, `int64(length-1)*8-int64(unusedBitsCount)`, `int64(length)*8-int64(unusedBitsCount)`, "tag:bit_string")
+	c("asn1-tag-number", "C16.asn1.row", as, `v = v<<7 | d.U7()`, `v = v<<8 | d.U7()`, "identifier:tag-number")
+	c("repr-scalar-conv", "C16.repr.route", "format/bencode/bencode.jq", `elif .type == "integer" then .value | tovalue`, `elif .type == "integer" then .value | tostring`, "bencode:arm:i")
+	c("repr-bool-inverted", "C16.repr.route", "format/bson/bson.jq", `.value != 0`, `.value == 0`, "bson:type:0x08")
+	c("bencode-assert-wrong", "C16.bencode.row", be, `d.FieldUTF8("separator", 1, d.StrAssert(":"))`, `d.FieldUTF8("separator", 1, d.StrAssert(";"))`, "arm:0")
+	c("mp-range-loop-bound", "C16.msgpack.row", mp, "for i := uint64(0); i < length; i++ {\n\t\t\t\t\td.FieldStruct(\"element\"", "for range length + 1 {\n\t\t\t\t\td.FieldStruct(\"element\"", "row:fixarray")
+
 	// text
 	c("text-yaml-eof", "C16.text.eof", "format/yaml/yaml.go", `!errors.Is(err, io.EOF) {`, `err != nil && !errors.Is(err, io.EOF) {`, "yaml:eof")
 	c("text-json-eof", "C16.text.eof", "format/json/json.go", `(len(vs) != 1 || !foundEOF)`, `(len(vs) < 1 || !foundEOF)`, "json:eof")
